@@ -348,16 +348,18 @@ pub fn run(mut run: Run) -> i32 {
             3 => polys.push(empty),
             _ => {}
         }
-        acc.evals += 2;
+        acc.evals += 3;
+        // the same members handed over as one-member MultiPolygons (the other implementor of the operand trait)
+        let as_multi: Vec<MultiPolygon<f64>> = polys.iter().map(|p| MultiPolygon(vec![p.clone()])).collect();
         let r = guard(|| {
             let uu = unary_union(&polys);
             let mut fold = MultiPolygon::<f64>(vec![]);
             for p in &polys {
                 fold = fold.union(p);
             }
-            (uu, fold)
+            (uu, fold, unary_union(&as_multi))
         });
-        let (uu, fold) = match r {
+        let (uu, fold, uu_multi) = match r {
             Ok(x) => x,
             Err(e) => {
                 acc.viol("unary_union panic".into(), idx, || json!({"members": format!("{:?}", polys), "panic": e}));
@@ -378,6 +380,12 @@ pub fn run(mut run: Run) -> i32 {
             let want = sel.iter().any(|o| locate(&o.ag, q) == I);
             let (x, y) = (q.fx(), q.fy());
             let (gu, gf) = (mp_inside_f(&uu, x, y), mp_inside_f(&fold, x, y));
+            if mp_inside_f(&uu_multi, x, y) != want {
+                acc.viol(format!("unary_union of one-member MultiPolygons disagrees with the member union ({} winding)", if cw { "cw" } else { "ccw" }), idx, || {
+                    json!({"members": format!("{:?}", polys), "unary_union(multipolygons)": format!("{:?}", uu_multi), "unary_union(polygons)": format!("{:?}", uu), "witness_point": [x, y], "expected_inside": want})
+                });
+                break;
+            }
             if gu != want || gf != want {
                 acc.viol(format!("unary_union / fold of unions disagree with the member union ({} winding): unary={} fold={} expected={}", if cw { "cw" } else { "ccw" }, gu, gf, want), idx, || {
                     json!({"members": format!("{:?}", polys), "unary_union": format!("{:?}", uu), "fold": format!("{:?}", fold), "witness_point": [x, y]})
@@ -530,6 +538,48 @@ pub fn run(mut run: Run) -> i32 {
                 Ok((i, o, pi, po)) => {
                     if len(&i) != 0.0 || (len(&o) - total).abs() > 1e-9 || len(&pi) != 0.0 || (len(&po) - total).abs() > 1e-9 {
                         acc.viol("clip against an empty clipping geometry: clip(false) must be empty and clip(true) the whole line".into(), idx, || json!({"line": format!("{:?}", mls), "operand": name, "clip(false)": format!("{:?}", i), "clip(true)": format!("{:?}", o), "empty Polygon clip(false)": format!("{:?}", pi), "empty Polygon clip(true)": format!("{:?}", po)}));
+                    }
+                }
+            }
+        });
+    }
+    // long line strings (thousands of coordinates): a comb of unit-spaced vertical teeth of height 2 joined alternately at the top and the bottom, clipped by a
+    // horizontal band that cuts every tooth (inside length = number of teeth, everything else outside) and by a box holding the whole comb
+    {
+        let sizes: Vec<usize> = if quick { vec![50, 1000, 4096, 4097, 5001, 9000] } else { vec![50, 1000, 2048, 2049, 4095, 4096, 4097, 4098, 5001, 8192, 8193, 9000, 16385, 40000, 70001] };
+        run.stage("clip-long-lines", sizes.len() * 4, |idx, acc| {
+            let (n, lead_in, whole) = (sizes[idx / 4], idx % 2 == 1, (idx / 2) % 2 == 1);
+            let mut cs: Vec<(f64, f64)> = vec![];
+            if lead_in {
+                cs.push((-0.5, 0.0));
+            }
+            let mut k = 0usize;
+            while cs.len() < n {
+                let x = (k / 2) as f64;
+                let up = (k / 2) % 2 == 0;
+                cs.push((x, if (k % 2 == 0) == up { 0.0 } else { 2.0 }));
+                k += 1;
+            }
+            let line = LineString::from(cs.clone());
+            let total: f64 = cs.windows(2).map(|w| ((w[0].0 - w[1].0).powi(2) + (w[0].1 - w[1].1).powi(2)).sqrt()).sum();
+            let teeth = cs.windows(2).filter(|w| w[0].0 == w[1].0).count() as f64;
+            let xmax = cs.last().unwrap().0 + 1.0;
+            let (y0, y1) = if whole { (-1.0, 3.0) } else { (0.5, 1.5) };
+            let band = Polygon::new(LineString::from(vec![(-1.0, y0), (xmax, y0), (xmax, y1), (-1.0, y1), (-1.0, y0)]), vec![]);
+            let want_in = if whole { total } else { teeth };
+            let mls = MultiLineString(vec![line]);
+            let len = |m: &MultiLineString<f64>| -> f64 { m.0.iter().flat_map(|s| s.0.windows(2)).map(|w| ((w[0].x - w[1].x).powi(2) + (w[0].y - w[1].y).powi(2)).sqrt()).sum() };
+            acc.evals += 2;
+            acc.class(format!("clip long line whole{} lead-in{}", whole, lead_in));
+            match guard(|| (band.clip(&mls, false), band.clip(&mls, true))) {
+                Err(e) => acc.viol("clip panic on a long line string".into(), idx, || json!({"coordinates": n, "panic": e})),
+                Ok((i, o)) => {
+                    let (li, lo) = (len(&i), len(&o));
+                    acc.maxf("clip long line length residual", (li - want_in).abs().max((lo - (total - want_in)).abs()));
+                    if (li - want_in).abs() > 1e-6 * total || (lo - (total - want_in)).abs() > 1e-6 * total {
+                        acc.viol("clip of a long comb line: inside / outside lengths differ from the exact ones".into(), idx, || {
+                            json!({"coordinates": n, "lead_in": lead_in, "clipping_band_y": [y0, y1], "inside_length": li, "expected_inside": want_in, "outside_length": lo, "expected_outside": total - want_in})
+                        });
                     }
                 }
             }
